@@ -150,6 +150,8 @@ static inline void myth_queue_clear(myth_thread_queue_t q)
 //push/pop/peek:Owner thread operations
 static inline void __attribute__((always_inline)) myth_queue_push(myth_thread_queue_t q, myth_thread_t th)
 {
+  MYTH_VERIF_POINT(10);
+  MYTH_VERIF_FPOINT("push");
   myth_queue_enter_operation(q);
 #if USE_LOCK || USE_LOCK_PUSH
   myth_spin_lock_body(&q->m_lock);
@@ -157,11 +159,14 @@ static inline void __attribute__((always_inline)) myth_queue_push(myth_thread_qu
   //Check
   int t = q->top;
   //read barrier
+  MYTH_VERIF_FPOINT("push_f");
   myth_wsqueue_rbarrier();
   if (t == q->size){
     //Acquire lock
+    MYTH_VERIF_FPOINT("push_lk");
     myth_wsqueue_lock_lock(&q->lock);
     //Runqueue full?
+    MYTH_VERIF_FPOINT("push_shift");
     if (q->base == 0){
       myth_assert(0);
       fprintf(stderr, "Fatal error:Runqueue overflow\n");
@@ -178,12 +183,16 @@ static inline void __attribute__((always_inline)) myth_queue_push(myth_thread_qu
     }
     t = q->top;
     myth_assert(t < q->size);
+    MYTH_VERIF_FPOINT("push_ulf");
     myth_wsqueue_lock_unlock(&q->lock);
   }
   //Do not need to extend of move.
+  MYTH_VERIF_FPOINT("push_w");
   q->ptr[t] = th;
   myth_wsqueue_wbarrier();//Guarantee W-W dependency
+  MYTH_VERIF_FPOINT("push_top");
   q->top = t + 1;
+  MYTH_VERIF_EV2("QPush", VQ(q), VD(th));
 #if USE_LOCK || USE_LOCK_PUSH
   myth_spin_unlock_body(&q->m_lock);
 #endif
@@ -193,10 +202,13 @@ static inline void __attribute__((always_inline)) myth_queue_push(myth_thread_qu
 #if MYTH_QUEUE_LIFO
 static inline myth_thread_t __attribute__((always_inline)) myth_queue_pop(myth_thread_queue_t q)
 {
+  MYTH_VERIF_POINT(11);
+  MYTH_VERIF_FPOINT("pop");
   myth_queue_enter_operation(q);
 
 #if QUICK_CHECK_ON_POP
   if (q->top <= q->base) {
+    MYTH_VERIF_EVZ2("QPop", VQ(q), 0);
     return NULL;
   }
 #endif
@@ -206,14 +218,19 @@ static inline myth_thread_t __attribute__((always_inline)) myth_queue_pop(myth_t
 #endif
   myth_thread_t ret;
   int top,base;
+  MYTH_VERIF_FPOINT("pop_dec");
   top = q->top;
   top--;
   q->top = top;
   //Decrement and check top
+  MYTH_VERIF_FPOINT("pop_f");
   myth_wsqueue_rwbarrier();
+  MYTH_VERIF_FPOINT("pop_ldb");
   base = q->base;
   if (base + 1 < top){
+    MYTH_VERIF_FPOINT("pop_fast");
     ret = q->ptr[top];
+    MYTH_VERIF_EVZ2("QPop", VQ(q), VD(ret));
     //q->ptr[top]=NULL;
 #if USE_LOCK || USE_LOCK_POP
     myth_spin_unlock_body(&q->m_lock);
@@ -221,7 +238,9 @@ static inline myth_thread_t __attribute__((always_inline)) myth_queue_pop(myth_t
     myth_queue_exit_operation(q);
     return ret;
   } else {
+    MYTH_VERIF_FPOINT("pop_lk");
     myth_wsqueue_lock_lock(&q->lock);
+    MYTH_VERIF_FPOINT("pop_slow");
     base = q->base;
     if (base <= top){//OK
       ret = q->ptr[top];
@@ -241,6 +260,8 @@ static inline myth_thread_t __attribute__((always_inline)) myth_queue_pop(myth_t
 	myth_wsqueue_wbarrier();
 	wc->seq = s + 2;
       }
+      MYTH_VERIF_EVZ2("QPop", VQ(q), VD(ret));
+      MYTH_VERIF_FPOINT("pop_ulf");
       myth_wsqueue_lock_unlock(&q->lock);
 #if USE_LOCK || USE_LOCK_POP
       myth_spin_unlock_body(&q->m_lock);
@@ -249,7 +270,10 @@ static inline myth_thread_t __attribute__((always_inline)) myth_queue_pop(myth_t
       return ret;
     } else {
       q->top = q->size/2;
+      MYTH_VERIF_FPOINT("pop_reset2");
       q->base = q->size/2;
+      MYTH_VERIF_EVZ2("QPop", VQ(q), 0);
+      MYTH_VERIF_FPOINT("pop_ulf");
       myth_wsqueue_lock_unlock(&q->lock);
 #if USE_LOCK || USE_LOCK_POP
       myth_spin_unlock_body(&q->m_lock);
@@ -273,8 +297,11 @@ static inline myth_thread_t myth_queue_take(myth_thread_queue_t q)
 {
   myth_thread_t ret;
   int b,top;
+  MYTH_VERIF_POINT(12);
+  MYTH_VERIF_FPOINT("take");
 #if QUICK_CHECK_ON_STEAL
   if (q->top - q->base <= 0){
+    MYTH_VERIF_EVZ2("QTake", VQ(q), 0);
     return NULL;
   }
 #endif
@@ -288,17 +315,23 @@ static inline myth_thread_t myth_queue_take(myth_thread_queue_t q)
     return NULL;
   }
 #else
+  MYTH_VERIF_FPOINT("take_lk");
   myth_wsqueue_lock_lock(&q->lock);
 #endif
   //Increment base
+  MYTH_VERIF_FPOINT("take_inc");
   b = q->base;
   q->base = b + 1;
+  MYTH_VERIF_FPOINT("take_f");
   myth_wsqueue_rwbarrier();
+  MYTH_VERIF_FPOINT("take_ldt");
   top = q->top;
   if (b < top){
     myth_wsqueue_rbarrier();
     ret = q->ptr[b];
     //q->ptr[b]=NULL;
+    MYTH_VERIF_EVZ2("QTake", VQ(q), VD(ret));
+    MYTH_VERIF_FPOINT("take_ulf");
     myth_wsqueue_lock_unlock(&q->lock);
 #if USE_LOCK || USE_LOCK_TAKE
     myth_spin_unlock_body(&q->m_lock);
@@ -306,6 +339,8 @@ static inline myth_thread_t myth_queue_take(myth_thread_queue_t q)
     return ret;
   }else{
     q->base = b;
+    MYTH_VERIF_EVZ2("QTake", VQ(q), 0);
+    MYTH_VERIF_FPOINT("take_ulf");
     myth_wsqueue_lock_unlock(&q->lock);
 #if USE_LOCK || USE_LOCK_TAKE
     myth_spin_unlock_body(&q->m_lock);
@@ -348,7 +383,10 @@ static inline int myth_queue_trypass(myth_thread_queue_t q,myth_thread_t th)
   myth_spin_lock_body(&q->m_lock);
 #endif
   int ret = 1;
+  MYTH_VERIF_POINT(13);
+  MYTH_VERIF_FPOINT("pass");
   if (!myth_wsqueue_lock_trylock(&q->lock)) return 0;
+  MYTH_VERIF_FPOINT("pass_chk");
   if (q->base == 0){
     ret = 0;
   }
@@ -357,8 +395,11 @@ static inline int myth_queue_trypass(myth_thread_queue_t q,myth_thread_t th)
     b = q->base;
     q->ptr[b-1] = th;
     myth_wsqueue_wbarrier();
+    MYTH_VERIF_FPOINT("pass_dec");
     q->base--;
   }
+  MYTH_VERIF_EV3("QPass", VQ(q), VD(th), ret);
+  MYTH_VERIF_FPOINT("pass_ulf");
   myth_wsqueue_lock_unlock(&q->lock);
 #if USE_LOCK || USE_LOCK_TRYPASS
   myth_spin_unlock_body(&q->m_lock);
@@ -378,11 +419,14 @@ static inline void myth_queue_pass(myth_thread_queue_t q,myth_thread_t th)
 //put:Owner function: put a thread to the tail of the queue
 static inline void myth_queue_put(myth_thread_queue_t q, myth_thread_t th)
 {
+  MYTH_VERIF_POINT(14);
+  MYTH_VERIF_FPOINT("put");
   myth_queue_enter_operation(q);
 #if USE_LOCK || USE_LOCK_PUSH
   myth_spin_lock_body(&q->m_lock);
 #endif
   myth_wsqueue_lock_lock(&q->lock);
+  MYTH_VERIF_FPOINT("put_chk");
   if (q->base == 0){
     /* queue underflow at the bottom. move the contents higher */
     if (q->top == q->size){
@@ -399,11 +443,15 @@ static inline void myth_queue_put(myth_thread_queue_t q, myth_thread_t th)
       myth_assert(q->base > 0);
     }
   }
+  MYTH_VERIF_FPOINT("put_w");
   int b = q->base;
   myth_assert(b > 0);
   b--;
   q->ptr[b] = th;
+  MYTH_VERIF_FPOINT("put_b");
   q->base = b;
+  MYTH_VERIF_EV2("QPut", VQ(q), VD(th));
+  MYTH_VERIF_FPOINT("put_ulf");
   myth_wsqueue_lock_unlock(&q->lock);
 #if USE_LOCK || USE_LOCK_PUSH
   myth_spin_unlock_body(&q->m_lock);
